@@ -8,8 +8,8 @@
                                  if/elif chain leaves as text                              -> `step`, `parseAux`, `parse`
     Shelxfile.write_shelx_file   skip `delete_on_write`, skip `''`, print every other item -> `emit`, `write`
     Shelxfile._find_included_files / _read_included_file                                    -> `spliceOld` (code before
-                                 fixes/C07_1: spliced lines are ordinary lines), `spliceNew` (repaired: spliced
-                                 lines are in `delete_on_write`)
+                                 fixes/C07_1, flat include files: spliced lines are ordinary lines), `expand`/`spliceNew`
+                                 (the code now: spliced lines, nested ones too, are remembered in `_included`)
   The text type `α` is a parameter (`String` in the driver, `Nat` in `decide`d witnesses). What a physical line
   *is* for the parse loop is carried by the record `PLine` (flags computed by the lexer at the end of this file,
   which mirrors `line.startswith(' ')`, `multiline_test`, `is_atom` and the keyword chain); the printers of the
@@ -151,17 +151,27 @@ def spliceOld (fs : FS α) (f : List (PLine α)) : List (PLine α) := f.flatMap 
 
 def markSpliced (l : PLine α) : PLine α := { l with spliced := true }
 
-/-- repaired: the inserted lines are recorded in `delete_on_write` -/
-def spliceLineNew (fs : FS α) (l : PLine α) : List (PLine α) :=
+/-- the content of an include file as it is spliced in: every line is recorded as included (`_included`), and
+    `+name` lines inside it are followed by the content of that file in turn (the loop of `_find_included_files`
+    runs over the lines it has just inserted). `k` bounds the nesting depth; it is reached only by cyclic
+    inclusion, which the code refuses (`ValueError`, see `cycleNew`). -/
+def expand (fs : FS α) : Nat → List (PLine α) → List (PLine α)
+  | 0, g => g.map markSpliced
+  | k + 1, g => g.flatMap fun l => match l.incl with
+    | some n => markSpliced l :: expand fs k ((fs n).getD [])
+    | none => [markSpliced l]
+
+def spliceLineNew (fs : FS α) (k : Nat) (l : PLine α) : List (PLine α) :=
   match l.incl with
-  | some n => l :: ((fs n).getD []).map markSpliced
+  | some n => l :: expand fs k ((fs n).getD [])
   | none => [l]
 
-def spliceNew (fs : FS α) (f : List (PLine α)) : List (PLine α) := f.flatMap (spliceLineNew fs)
+def spliceNew (fs : FS α) (k : Nat) (f : List (PLine α)) : List (PLine α) := f.flatMap (spliceLineNew fs k)
 
-/-- `read_file` + `write_shelx_file`; `none` is the `ValueError` raised when a file name is included twice -/
-def cycleNew [DecidableEq α] (P : Printer α) (fs : FS α) (f : List (PLine α)) : Option (List (PLine α)) :=
-  if (includeNames f).Nodup then some (cycle P (spliceNew fs f)) else none
+/-- `read_file` + `write_shelx_file`; `none` is the `ValueError` raised when a file name is included twice
+    (anywhere: in the file itself or in a nested include file) -/
+def cycleNew [DecidableEq α] (P : Printer α) (fs : FS α) (k : Nat) (f : List (PLine α)) : Option (List (PLine α)) :=
+  if (includeNames (spliceNew fs k f)).Nodup then some (cycle P (spliceNew fs k f)) else none
 
 def cycleOld [DecidableEq α] (P : Printer α) (fs : FS α) (f : List (PLine α)) : Option (List (PLine α)) :=
   if (includeNames f).Nodup then some (cycle P (spliceOld fs f)) else none
@@ -310,21 +320,24 @@ def classify (glued : String) : Cls × (String × String) × List String :=
     | some (_, _, k) => (if n ≥ k then .obj else .raw, (word, first), [])
     | none => (.raw, (word, first), [])
 
-/-- `misc.multiline_test` -/
+def rstripS (s : String) : String := String.ofList (s.toList.reverse.dropWhile isBlankChar).reverse
+
+/-- `misc.multiline_test`: the text before a `!` comment ends in `=`, and the line is not a REM line (any case)
+    other than a `REM DSR PUT/REPLACE` line -/
 def multilineTest (line : String) : Bool :=
-  if line.contains '=' then
-    if line.startsWith "REM" then
+  if (rstripS (beforeBang line)).toList.getLast? = some '=' then
+    if (takeS 3 line).toUpper = "REM" then
       -- `dsr_regex`: ^rem\s+DSR\s+(PUT|REPLACE), case insensitive
       let t := tokens line.toUpper
       t.getD 0 "" = "REM" && t.getD 1 "" = "DSR" && ((t.getD 2 "").startsWith "PUT" || (t.getD 2 "").startsWith "REPLACE")
     else true
   else false
 
-/-- text before the last `=` (`str.rpartition('=')[0]`) -/
+/-- text before the last `=` of the comment-free part (`line.split('!')[0].rpartition('=')[0]`) -/
 def beforeLastEq (s : String) : String :=
-  String.ofList ((s.toList.reverse.dropWhile (· ≠ '=')).drop 1).reverse
+  String.ofList (((beforeBang s).toList.reverse.dropWhile (· ≠ '=')).drop 1).reverse
 
-/-- glue the logical line that starts at `head`: `line.rpartition('=')[0] + next` while `multiline_test` -/
+/-- glue the logical line that starts at `head`: cut at the last `=`, append the next line, while `multiline_test` -/
 def glueText (head : String) : List String → String
   | [] => head
   | nxt :: rest =>
